@@ -372,12 +372,210 @@ def job_random(lo, hi, seed, nmax):
     return out
 
 
+# --------------------------------------------------------------------------------------------------
+# histories on the SAME target and pattern objects: queries, in-place edit, queries again
+
+def _o2(btype):
+    """Twice the order a bond of this type reports (a throw-away Bond: interpretation of the type token)."""
+    mc = _molli()
+    o = 2.0 * float(mc.Bond(mc.Atom("C"), mc.Atom("C"), btype=mc.BondType[btype]).order)
+    return int(round(o)) if abs(o - round(o)) < 1e-9 else -1
+
+
+def _view(obj):
+    atoms, bonds = list(obj.atoms), list(obj.bonds)
+    return atoms, bonds, graph_event(obj, atoms, bonds)
+
+
+def _op(op, a=0, b=0, e="", i=0, o2=0, t=""):
+    return {"op": op, "a": a, "b": b, "e": e, "i": i, "o2": o2, "t": t}
+
+
+def apply_edit(obj, atoms, bonds, op, serial):
+    """The real in-place edit for an abstract op (on the target or on the pattern object)."""
+    mc = _molli()
+    k = op["op"]
+    if k == "relabel":
+        atoms[op["a"] - 1].element = mc.Element[op["e"]]
+    elif k == "label":
+        atoms[op["a"] - 1].label = f"z{serial}"
+    elif k == "rebond":
+        bonds[op["i"] - 1].btype = mc.BondType[op["t"]]
+    elif k == "connect":
+        obj.connect(atoms[op["a"] - 1], atoms[op["b"] - 1], btype=mc.BondType[op["t"]])
+    elif k == "delbond":
+        obj.del_bond(bonds[op["i"] - 1])
+    elif k == "addatom":
+        obj.append_atom(mc.Atom(mc.Element[op["e"]], label=f"n{serial}"))
+    elif k == "delatom":
+        obj.del_atom(atoms[op["a"] - 1])
+    else:
+        raise ValueError(op)
+
+
+def _choose_edit(rnd, gev, flavour, bt, structural_atoms, pn, pel):
+    """An edit that is applicable to the graph the object shows now: ("edit" | "pedit", op)."""
+    n, bl = gev["n"], gev["bonds"]
+    adj = {i: set() for i in range(1, n + 1)}
+    for a, b, _ in bl:
+        adj[a].add(b); adj[b].add(a)
+    kinds = ["relabel", "relabel", "prelabel", "prelabel", "label", "plabel", "connect", "delbond"]
+    if flavour == "unk":
+        kinds += ["rebond", "rebond"]
+    if structural_atoms:
+        kinds += ["addatom", "delatom"]
+    for _ in range(20):
+        k = rnd.choice(kinds)
+        if k == "relabel":
+            a = rnd.randint(1, n)
+            e = rnd.choice([x for x in ("C", "N", "O", "S") if x != gev["el"][a - 1]])
+            return "edit", _op("relabel", a=a, e=e)
+        if k == "prelabel":
+            a = rnd.randint(1, pn)
+            e = rnd.choice([x for x in ("C", "N", "O", "Unknown", "Unknown") if x != pel[a - 1]])
+            return "pedit", _op("relabel", a=a, e=e)
+        if k == "label":
+            return "edit", _op("label", a=rnd.randint(1, n))
+        if k == "plabel":
+            return "pedit", _op("label", a=rnd.randint(1, pn))
+        if k == "rebond" and bl:
+            t = rnd.choice(BT_ANY)
+            return "edit", _op("rebond", i=rnd.randint(1, len(bl)), t=t, o2=_o2(t))
+        if k == "connect":
+            free = [(a, b) for a in range(1, n + 1) for b in range(a + 1, n + 1) if b not in adj[a]]
+            if free:
+                a, b = rnd.choice(free)
+                if rnd.random() < 0.5:
+                    a, b = b, a
+                t = bt if flavour == "uni" else rnd.choice(BT_ANY)
+                return "edit", _op("connect", a=a, b=b, t=t, o2=_o2(t))
+        if k == "delbond" and bl:
+            return "edit", _op("delbond", i=rnd.randint(1, len(bl)))
+        if k == "addatom" and n < 12:
+            return "edit", _op("addatom", e=rnd.choice(("C", "N", "O")))
+        if k == "delatom" and n > 3:
+            return "edit", _op("delatom", a=rnd.randint(1, n))
+    return "edit", _op("label", a=1)
+
+
+def _battery(rnd, gev, focus):
+    """Queries after an edit: the match of the pattern object and a few traversal / ring / local queries near the edit."""
+    n, bl = gev["n"], gev["bonds"]
+    adj = {i: [] for i in range(1, n + 1)}
+    for a, b, _ in bl:
+        adj[a].append(b); adj[b].append(a)
+    qs = [{"q": "matchp", "api": rnd.choice(("match", "substr")), "mode": "exact"}]
+    starts = [a for a in focus if 1 <= a <= n][:2] or [rnd.randint(1, n)]
+    starts.append(rnd.randint(1, n))
+    for s in starts:
+        d = rnd.choice([0] + sorted(adj[s]))
+        qs.append({"q": "bfs", "api": rnd.choice(("bfsd", "bfs")), "s": s, "d": d, "fs": rnd.choice(FORMS), "fd": rnd.choice(FORMS)})
+    if bl:
+        near = [i + 1 for i, (a, b, _) in enumerate(bl) if a in focus or b in focus]
+        qs.append({"q": "ring", "b": rnd.choice(near or list(range(1, len(bl) + 1)))})
+    qs.append({"q": "local", "a": starts[0], "fa": [rnd.choice(FORMS) for _ in range(3)]})
+    return qs
+
+
+def history(tcase, pcase, flavour, *, rnd=None, n_edits=6, script=None):
+    """One trace on ONE target object and ONE pattern object.  With `script` (a replay) the recorded steps are
+    followed literally; otherwise the steps are chosen from what the objects show after each edit."""
+    obj, atoms, bonds = build(tcase)
+    pobj, patoms, pbonds = build(pcase, "Connectivity")
+    atoms, bonds, gev = _view(obj)
+    patoms, pbonds, pgev = _view(pobj)
+    evs = [gev, {"ev": "pattern", "pn": pgev["n"], "pel": pgev["el"], "pb": [[a, b] for a, b, _ in pgev["bonds"]]}]
+    out_script = []
+    bt = tcase["bonds"][0][2] if tcase["bonds"] else "Single"
+    structural_atoms = (tcase.get("cls") or "Connectivity") == "Connectivity"
+
+    def query(q):
+        if q["q"] == "matchp":
+            pos = {a: i + 1 for i, a in enumerate(atoms)}
+            try:
+                if q["api"] == "match":
+                    maps = [[pos.get(m[x], 0) for x in patoms] for m in obj.match(pobj)]
+                else:
+                    maps = [[int(i) + 1 for i in m] for m in obj.get_substr_indices(pobj)]
+                return {"ev": "matchp", "api": q["api"], "pel": [a.element.name for a in patoms], "maps": maps, "mode": q["mode"]}
+            except Exception as e:                                # noqa: BLE001
+                return {"ev": "raised", "q": "matchp", "exc": type(e).__name__, "msg": str(e)[:200]}
+        return run_query(obj, atoms, bonds, q)
+
+    steps = iter(script) if script is not None else None
+    serial = 0
+    focus = [1]
+    phase_edits = 0
+    pending = _battery(rnd, gev, focus) if script is None else []
+    while True:
+        if steps is not None:
+            st = next(steps, None)
+            if st is None:
+                break
+        else:
+            if pending:
+                st = {"step": "query", "q": pending.pop(0)}
+            elif phase_edits < n_edits:
+                which, op = _choose_edit(rnd, gev, flavour, bt, structural_atoms, len(patoms), [a.element.name for a in patoms])
+                st = {"step": which, "op": op}
+                phase_edits += 1
+            else:
+                break
+        out_script.append(st)
+        if st["step"] == "query":
+            evs.append(query(st["q"]))
+            continue
+        op = st["op"]
+        serial += 1
+        try:
+            if st["step"] == "edit":
+                apply_edit(obj, atoms, bonds, op, serial)
+                atoms, bonds, gev = _view(obj)
+                evs.append({"ev": "edit", **op, "n": gev["n"], "el": gev["el"], "bonds": gev["bonds"]})
+                focus = [x for x in (op["a"], op["b"]) if x] or ([gev["bonds"][op["i"] - 1][0]] if op["op"] == "rebond" else [1])
+                if op["op"] == "addatom":
+                    focus = [gev["n"]]
+            else:
+                apply_edit(pobj, patoms, pbonds, op, serial)
+                evs.append({"ev": "pedit", **op})
+        except Exception as e:                                    # noqa: BLE001 - the edit itself failed: outside C15
+            evs.append({"ev": "edit-raised", "op": op["op"], "exc": type(e).__name__, "msg": str(e)[:200]})
+            break
+        if steps is None:
+            pending = _battery(rnd, gev, focus)
+    return evs, out_script
+
+
+def job_history(lo, hi, seed, nmax):
+    out = []
+    for i in range(lo, hi):
+        rnd = random.Random(f"{seed}/hist/{nmax}/{i}")
+        n = rnd.randint(3, nmax)
+        edges = random_graph(rnd, n, "mol" if rnd.random() < 0.6 else "gnp")
+        flavour = rnd.choice(("uni", "unk"))
+        bt = rnd.choice(BT_MATCH)
+        cls = "Connectivity" if rnd.random() < 0.5 else rnd.choice(CLASSES)
+        tcase = dress(n, edges, rnd, els=("C", "C", "N", "O"), bts=bt if flavour == "uni" else BT_ANY, cls=cls)
+        pat, _ = cut_pattern(tcase, rnd, rnd.randint(1, min(n, 4)), wild=0.15)
+        if flavour == "unk":
+            pat["bonds"] = [[a, b, "Unknown"] for a, b, _ in pat["bonds"]]
+        evs, script = history(tcase, pat, flavour, rnd=rnd, n_edits=rnd.randint(4, 7))
+        out.append({"tid": f"h{nmax}-{i}", "case": tcase, "pattern": pat, "flavour": flavour, "script": script, "hist": True, "ev": evs})
+    return out
+
+
 LIFO_WITNESS = [(1, 2), (1, 3), (2, 4), (4, 5), (3, 5)]
 
 
 def job_mutant(name, seed):
     """A fixed small workload recorded with a wrong implementation patched in: TLC must reject at least one trace."""
     out = []
+    if name in HISTORY_MUTANTS:
+        with patched(name):
+            out = job_history(0, 40, f"{seed}/mutant/{name}", 8)
+        for i, t in enumerate(out):
+            t["tid"] = f"mut-{name}-{i}"
+        return out
     with patched(name):
         rnd = random.Random(f"{seed}/mutant/{name}")
         ps = pairs(5)
@@ -457,7 +655,36 @@ def mutants():
     out["NonInducedMatch"] = {"match": match_mono}
     out["WildcardOnWrongSide"] = {"_node_match": staticmethod(lambda a1, a2: _orig_node(a2, a1))}
     out["ValenceCountsBonds"] = {"bonded_valence": valence_counts}
+
+    # memoisation in the query paths: only visible in histories (query, in-place edit, query again)
+    nx_cache, adj_cache = {}, {}
+    _orig_nx = C.__dict__["to_nxgraph"]
+
+    def to_nxgraph_memo(self):
+        g = nx_cache.get(id(self))
+        if (g is not None and list(g.nodes) == self.atoms and g.number_of_edges() == self.n_bonds
+                and all(g.has_edge(b.a1, b.a2) for b in self.bonds)):
+            return g                                  # node / edge ATTRIBUTES (element, bond type) may be stale
+        g = _orig_nx(self)
+        nx_cache[id(self)] = g
+        return g
+
+    def connected_atoms_memo(self, a):
+        _a = self.get_atom(a)
+        c = adj_cache.get(id(self))
+        if c is None or c[0] != list(self.atoms):
+            c = (list(self.atoms), {})
+            adj_cache[id(self)] = c
+        if _a not in c[1]:
+            c[1][_a] = [b % _a for b in self.bonds_with_atom(_a)]
+        yield from c[1][_a]                           # stale after connect / del_bond
+
+    out["MemoisedNxGraph"] = {"to_nxgraph": to_nxgraph_memo}
+    out["MemoisedAdjacency"] = {"connected_atoms": connected_atoms_memo}
     return out
+
+
+HISTORY_MUTANTS = ("MemoisedNxGraph", "MemoisedAdjacency")
 
 
 class patched:
